@@ -66,6 +66,14 @@ def _seeded_mutants(prop):
                 out.append({"name": "benign-" + d, "patch": pp, "expect": "clean", "canary": False, "what": "behaviour-preserving refactoring %s: %s" % (d, meta.get("what", "")[:80])})
             elif prop in meta.get("undecided_for", {}):
                 out.append({"name": "benign-" + d, "patch": pp, "expect": "no-alarm", "canary": False, "what": "behaviour-preserving refactoring %s (undecided accepted): %s" % (d, meta.get("what", "")[:80])})
+            # the same refactoring with one property-breaking edit made on top of it (written by the author of /verif): the
+            # rule that learnt to read the refactored shape must still report the break in it
+            tb = os.path.join(root, d, "then_break.json")
+            if os.path.isfile(tb):
+                for b in json.load(open(tb)):
+                    if prop in b["violates"]:
+                        out.append({"name": "refactored-%s-%s" % (d, b["name"]), "patch": pp, "then": [(b["file"], [tuple(e) for e in b["edits"]])], "expect": "violated", "rule": prop,
+                                    "canary": False, "what": "refactoring %s followed by: %s" % (d, b["what"])})
             continue
         if prop in meta.get("checks_reporting_it", []):
             out.append({"name": "seeded-" + d, "patch": pp, "expect": "violated", "rule": prop, "canary": False,
@@ -111,7 +119,8 @@ def _run_one(args):
             r = subprocess.run(["patch", "-p1", "-s", "--no-backup-if-mismatch", "-i", m["patch"]], cwd=dst, capture_output=True, text=True)
             if r.returncode != 0:
                 return {"name": m["name"], "outcome": "inapplicable", "why": "patch does not apply to this tree"}
-            m = dict(m, file=[], edits=[])
+            then = m.get("then", [])
+            m = dict(m, file=[f for f, _ in then], edits=[e for _, e in then])
         files = m["file"] if isinstance(m["file"], (list, tuple)) else [m["file"]]
         editsets = m["edits"] if isinstance(m["file"], (list, tuple)) else [m["edits"]]
         for f, eds in zip(files, editsets):
